@@ -19,7 +19,7 @@ TInit ==
   /\ chan = [c \in Chan |-> [d \in Denom |-> [out |-> 0, sent |-> 0]]]
   /\ held = [d \in Denom |-> 0] /\ ubal = [u \in User |-> [d \in Denom |-> 0]]
   /\ defaultGas = -1 /\ admin = "gov" /\ allow = [listed |-> FALSE, gas |-> -1] /\ tokFails = FALSE
-  /\ pkts = <<>> /\ legacy = FALSE /\ now = [h |-> 0, t |-> 0] /\ out = <<>> /\ ack = "none"
+  /\ pkts = <<>> /\ legacy = FALSE /\ regs = {} /\ now = [h |-> 0, t |-> 0] /\ out = <<>> /\ ack = "none"
   /\ credit = [c \in Chan |-> [d \in Denom |-> 0]] /\ ident = [c \in Chan |-> [d \in Denom |-> 0]] /\ pktMax = -1
   /\ ev = [act |-> "init", ok |-> TRUE, anom |-> <<>>]
 
@@ -37,7 +37,7 @@ TNext ==
      /\ held' = H
      /\ ubal' = [u \in User |-> [d \in Denom |-> e.obs.ubal[u][d]]]
      /\ defaultGas' = e.obs.defaultGas /\ admin' = e.obs.admin /\ allow' = e.obs.allow
-     /\ tokFails' = e.obs.tokFails /\ legacy' = e.obs.legacy
+     /\ tokFails' = e.obs.tokFails /\ legacy' = e.obs.legacy /\ regs' = ToSet(e.obs.regs)
      /\ now' = e.now /\ out' = e.out /\ ack' = e.ack
      /\ pktMax' = IF reset THEN e.cfg.pktMax ELSE pktMax
      /\ pkts' = IF reset THEN e.cfg.prepkts
@@ -85,6 +85,9 @@ T_C12_FailureRefunds == [][C12_FailureRefunds]_tv
 T_C12_SuccessAckKeeps == [][C12_SuccessAckKeeps]_tv
 T_C12_OthersKeepBooks == [][C12_OthersKeepBooks]_tv
 T_C12_LegacyMigrateRebases == [][C12_LegacyMigrateRebases]_tv
+T_XI_OpenRule == [][XI_OpenRule]_tv
+T_XI_ConnectRule == [][XI_ConnectRule]_tv
+T_XI_RegsWriters == [][XI_RegsWriters]_tv
 T_C18_AllowMonotone == [][C18_AllowMonotone]_tv
 T_C18_GovOnly == [][C18_GovOnly]_tv
 T_C18_GovExact == [][C18_GovExact]_tv
